@@ -266,7 +266,11 @@ def drive_wd(item):
         if t["mode"] == "target":
             lines.append("gwf.target(%r, inputs=%s, outputs=[%r]) << 'echo'" % (name, ins_expr, out))
         elif t["mode"] == "template":
-            lines.append("gwf.target_from_template(%r, tmpl(%s, [%r], %s))" % (name, ins_expr, out, wdarg))
+            # the same template object is first added to another workflow living elsewhere: that must
+            # not change what it means here
+            lines.append("tpl_%s = tmpl(%s, [%r], %s)" % (name, ins_expr, out, wdarg))
+            lines.append("Workflow(working_dir=%r).target_from_template(%r, tpl_%s)" % (dirs["E"] if t["loc"] != "E" else dirs["W"], name + "_elsewhere", name))
+            lines.append("gwf.target_from_template(%r, tpl_%s)" % (name, name))
         else:
             lines.append("gwf.map(tmpl, [(%s, [%r], %s)], name=lambda i, t: %r)" % (ins_expr, out, wdarg, name))
         f = os.path.join(loc, out)
